@@ -7,6 +7,7 @@ pub mod deadline;
 pub mod hookproto;
 pub mod misc;
 pub mod text;
+pub mod udiff;
 
 #[derive(Clone, Copy, PartialEq, Eq, Debug)]
 pub enum Tier {
